@@ -1,8 +1,11 @@
 package world
 
 import (
+	"encoding/json"
 	"os"
 	"os/exec"
+	"path/filepath"
+	"strings"
 )
 
 // NodeBin locates a Node >= 22.6 binary (runs .ts directly via type stripping).
@@ -22,5 +25,43 @@ func NodeBin() string {
 	return ""
 }
 
-// AdmitTS loads every emitted TS module of each live world in Node (boot admission).
-func AdmitTS(b *Batch) {}
+// AdmitTS loads every emitted TS module of each live world in Node (boot admission):
+// a world whose modules do not load gets a BootErr.
+func AdmitTS(b *Batch) {
+	node := NodeBin()
+	if node == "" {
+		return
+	}
+	var files []string
+	owner := map[string]*Built{}
+	for _, w := range b.Worlds {
+		if w.Refused != "" || w.BootErr != "" {
+			continue
+		}
+		for _, f := range w.TSFiles {
+			files = append(files, f)
+			owner[f] = w
+		}
+	}
+	if len(files) == 0 {
+		return
+	}
+	cmd := exec.Command(node, append([]string{"--no-warnings", VerifDir + "/node/admit.mjs"}, files...)...)
+	out, _ := cmd.Output()
+	for _, ln := range strings.Split(string(out), "\n") {
+		if ln == "" {
+			continue
+		}
+		var r struct {
+			File  string `json:"file"`
+			OK    bool   `json:"ok"`
+			Error string `json:"error"`
+		}
+		if json.Unmarshal([]byte(ln), &r) != nil || r.OK {
+			continue
+		}
+		if w := owner[r.File]; w != nil && w.BootErr == "" {
+			w.BootErr = "ts load: " + filepath.Base(r.File) + ": " + r.Error
+		}
+	}
+}
